@@ -527,6 +527,24 @@ def r63(ctx, res):
                 why = "a pyramid is added only under a condition"
             elif len(adds) > 1:
                 why = "more than one pyramid per face"
+        # comprehension form:  self.pyramid_set = {Pyramid(f, self.center_point, ...) for f in self.convex_polygons}
+        if not ok:
+            for f_ in scope:
+                for st in walk_local(f_.node):
+                    if isinstance(st, ast.Assign) and len(st.targets) == 1 and txt(st.targets[0]) == "%s.pyramid_set" % (f_.self_name or sn):
+                        v = st.value
+                        if isinstance(v, ast.Call) and isinstance(v.func, ast.Name) and v.func.id in ("set", "frozenset") and len(v.args) == 1:
+                            v = v.args[0]
+                        if isinstance(v, (ast.SetComp, ast.GeneratorExp, ast.ListComp)) and len(v.generators) == 1:
+                            g0 = v.generators[0]
+                            e0 = v.elt
+                            if not g0.ifs and isinstance(g0.target, ast.Name) and txt(g0.iter) == "%s.convex_polygons" % (f_.self_name or sn) \
+                                    and isinstance(e0, ast.Call) and txt(e0.func) == "Pyramid" and len(e0.args) >= 2 \
+                                    and txt(e0.args[0]) == g0.target.id and txt(e0.args[1]) == "%s.center_point" % (f_.self_name or sn):
+                                ok = True
+                                why = "pyramid_set rebuilt with one Pyramid(face, center_point) per face (comprehension over all faces)"
+                            elif g0.ifs:
+                                why = "the comprehension filters the faces"
         res.ob("R6.3", fi.where(), "%s: one pyramid per face" % short, ok, why)
         if not ok:
             res.violation("R6.3", fi, fi.node, "%s does not add exactly one Pyramid(face, centre) for every face: %s (the volume is the "
